@@ -98,6 +98,28 @@ def gen_program(rng, force=None):
     return "\n".join(L) + "\n", runs, missing
 
 
+def count_programs(quick):
+    """numbers of false assertions around the sizes of a process exit status and of small counters, in one block and split
+    over several blocks (the gate must not depend on how many assertions failed, only on whether one did)"""
+    out = []
+    def block(fn, n, good):
+        return ("fn %s(x: int) -> int {\n    return (+ x 1)\n}\nshadow %s {\n    let mut i_%s: int = 0\n    while (< i_%s %d) {\n        assert (== (%s i_%s) (+ i_%s %d))\n        set i_%s (+ i_%s 1)\n    }\n}\n"
+                % (fn, fn, fn, fn, n, fn, fn, fn, 1 if good else 2, fn, fn))
+    MAIN = "fn main() -> int {\n    return 0\n}\nshadow main {\n    assert (== 1 1)\n}\n"
+    splits = [[1], [2], [127], [128], [255], [256], [257], [511], [512], [768], [1024], [128, 128], [255, 1], [1, 255], [200, 56], [256, 256], [100, 100, 56], [3, 253]]
+    if not quick:
+        splits += [[32767], [32768], [65535], [65536], [65537], [131072], [65535, 1], [65280, 256]]
+    for sp in splits:
+        src, runs = "", []
+        for k, n in enumerate(sp):
+            src += block("c%d" % k, n, False)
+            runs.append(["c%d" % k, False, n])
+        src += block("ok", 3, True)
+        runs.append(["ok", False, 0])
+        out.append((src + MAIN, runs + [["main", False, 0]], []))
+    return out
+
+
 def compile_one(args):
     tdir, td, k, src = args
     p = os.path.join(td, "p%d.nano" % k)
@@ -144,6 +166,7 @@ def run(ctx):
     rng = ctx.rng
     progs = [gen_program(rng) for _ in range(40 if quick else 600)]
     progs += [gen_program(rng, force=True) for _ in range(16 if quick else 200)]
+    progs += count_programs(quick)
     with tempfile.TemporaryDirectory(prefix="nvc06", dir="/var/tmp") as td:
         with ThreadPoolExecutor(16) as ex:
             res = list(ex.map(compile_one, [(tdir, td, k, p[0]) for k, p in enumerate(progs)]))
